@@ -70,6 +70,21 @@ def run(t):
                                         3 if t.tier == "quick" else 5)
           if any(m in q for m in ("'a':", ")[0]", ")[1]", "][0]", "][1]", "'k'"))]
     t.bounds.append(f"{len(qs)} chains + {len(rq)} random queries with packaging (seeded)")
+    # First over a sequence that only BECOMES a Select of packages after fusion (a SelectMany whose
+    # inner Select builds them), taken apart in the same lambda or in a later stage (seed C14_f)
+    G = "Where(ds, lambda e: Count(SelectMany(e.jets, lambda j: j.tracks)) > 0)"
+    PK = [("(t.pt, j.pt)", "[0]", "[1]"), ("[t.pt, j.pt]", "[1]", "[0]"),
+          ("{'t': t.pt, 'j': j.pt}", "['t']", ".j"), ("(t, j)", "[0].pt", "[1].pt")]
+    first_sm = []
+    for pk, p1, p2 in PK:
+        sm = f"SelectMany(e.jets, lambda j: Select(j.tracks, lambda t: {pk}))"
+        first_sm += [f"Select({G}, lambda e: First({sm}){p1})",
+                     f"Select(Select({G}, lambda e: First({sm})), lambda p: p{p2})",
+                     f"Select(Select({G}, lambda e: First({sm})), lambda p: p{p1} + p{p2})",
+                     f"Select({G}, lambda e: First(Where({sm}, lambda w: w{p1} > -100)){p2})"]
+    n0 = len(t.cases) if hasattr(t, "cases") else None
+    for s in first_sm:
+        check_one(t, s, "first-of-selectmany")
     for s, sch in qs:
         check_one(t, s, sch)
     for s in rq:
